@@ -23,6 +23,8 @@ func runC17(p *Program, r *Report) {
 	ruleR175(p, r)
 	r.Rule("R17.4", "E3+E2", 5, "the shared v1 key cache: every method of the wrapped LRU (all of them reorder or change the list) is called under the exclusive lock, and a reader receives a fresh copy, never the stored slice that eviction wipes in place")
 	ruleR174(p, r)
+	r.Rule("R17.6", "E2", 3, "objects shared by concurrent keystore users hold no digest state (same rule as R01.11): every hash.Hash that is written to was created in the same function; the v2 keystore's signer is used by all readers under a shared lock")
+	rulePerCallDigest(p, r, "R17.6")
 }
 
 // fsCall: invoke of a Backend method through the keystore's fs field.
